@@ -30,6 +30,7 @@ type Job struct {
 	File      string   `json:"file"`      // replay mode
 	From, To  int      `json:"-"`         // unused
 	MaxRuns   int      `json:"max_runs"`  // cap on runs for this worker (0 = none)
+	SkipEnum  bool     `json:"skip_enum"` // start at the first sampled index (race tier: the enumeration is too slow under -race)
 	LogDir    string   `json:"log_dir"`   // logdump mode: write full event logs per run
 	NoShrink  bool     `json:"no_shrink"` // skip shrinking
 	ShrinkS   int      `json:"shrink_s"`
@@ -92,6 +93,9 @@ type ReplayFile struct {
 
 var stepCtr atomic.Int64
 var curRun atomic.Int64
+// raceTier: the binary was built with -race (driver sets SIM_RACE=1).
+var raceTier = os.Getenv("SIM_RACE") == "1"
+
 var runStartedNs atomic.Int64 // real time at which the current run started
 var abortRun atomic.Bool      // set by the watchdog: the current run exceeded its wall budget
 
@@ -133,7 +137,15 @@ func execute(t *testing.T, sc *Scenario, tier string, params any, ch *Chooser, s
 				}
 			}
 		}()
-		synctest.Test(t, func(t *testing.T) {
+		bubble := func(f func(*testing.T)) { synctest.Test(t, f) }
+		if raceTier {
+			// under -race the testing package fails (FailNow) any test during which the detector
+			// reported something, harness-only reports included: confine that to a subtest
+			bubble = func(f func(*testing.T)) {
+				t.Run("run", func(st *testing.T) { synctest.Test(st, f) })
+			}
+		}
+		bubble(func(t *testing.T) {
 			sim = NewSim(ch, &stepCtr)
 			sim.SetAbortFlag(&abortRun)
 			sim.KeepLog = keepLog
@@ -470,7 +482,11 @@ func runWorker(t *testing.T, job *Job) {
 			}
 		}
 	} else {
-		for idx := job.Worker; idx < total; idx += job.Workers {
+		first := job.Worker
+		if job.SkipEnum {
+			first += enum - enum%job.Workers + job.Workers
+		}
+		for idx := first; idx < total; idx += job.Workers {
 			indices = append(indices, idx)
 		}
 	}
